@@ -423,6 +423,11 @@ def r_table(ctx, col, names_cls, fields):
     nd = value_of(init, "ndata")
     if not isinstance(nd, ast.Dict):
         raise AnalysisError("anchor-vanished: Tree.__init__ ndata dict literal")
+    later = [n for n in own_nodes(init) if isinstance(n, (ast.Assign, ast.AugAssign)) and any(
+        isinstance(t, ast.Subscript) and norm_src(t.value) == "ndata" for t in (n.targets if isinstance(n, ast.Assign) else [n.target]))]
+    if not nd.keys or later:
+        # the table is filled some other way (a loop over a column spec, ...): its content cannot be read off a literal
+        raise AnalysisError("anchor-vanished: Tree.__init__ no longer builds `ndata` as one dict literal of the seven columns")
     seen = []
     for k, v in zip(nd.keys, nd.values):
         fld = field_of_names_attr(k, fields)
